@@ -32,6 +32,23 @@ func runScenario(c *core.Ctx, class, desc string, sc *Scenario, gt func(errClass
 	c.Add(&core.Case{Class: class, Desc: desc, Entry: "ver", Input: sc.modelInput(), Impl: obs, GT: g, NonTrivial: nontrivial})
 }
 
+// runScenarioImplOnly: as runScenario, but judged by the ground-truth oracle alone (used where the
+// model cannot represent the input, e.g. sub-second verification times: its clock counts seconds).
+func runScenarioImplOnly(c *core.Ctx, class, desc string, sc *Scenario, gt func(errClass uint64, err error) string) {
+	if !c.Wanted() {
+		c.Add(&core.Case{Class: class, SkipModel: true, Impl: core.Ls()})
+		return
+	}
+	obs, err, pan, _ := sc.run()
+	g := ""
+	if pan != nil {
+		g = fmt.Sprintf("verification panicked: %v", pan)
+	} else if gt != nil {
+		g = gt(obs.Nth(0).N, err)
+	}
+	c.Add(&core.Case{Class: class, Desc: desc, SkipModel: true, Impl: obs, GT: g, NonTrivial: true})
+}
+
 func C11(c *core.Ctx) {
 	c.Rule = "honest worlds from the generator (fresh PKI and keys, random field contents, SVN vectors, TDX module versions 0..255, matching UpToDate level, CRLs listing unrelated serials) at the three option levels; QE auth data lengths 0..65535, trailing NUL, extra bytes; signatures with leading zero bytes in r / s; pairwise distinct verification times anywhere inside all validity windows; worlds whose documents, CRLs and PCK leaf end at staggered dates with each time-set entry one day before the end of its own artefact; the Intel sample quote under the embedded root at its reference time. non-trivial = every case (each is a full verification); distinct = distinct worlds x level"
 	r := c.Rng
